@@ -125,3 +125,19 @@ func DumpWAL(path, title string) {
 		fmt.Printf("  #%d %s\n", i, s)
 	}
 }
+
+// walDirty: does the head file hold anything a sequential reader cannot decode (a torn tail, a damaged record)?
+// Decides only HOW the harness boots the node (see Boot); what to do about the damage is the node's business.
+func walDirty(path string) bool {
+	f, err := os.Open(path)
+	if err != nil {
+		return false
+	}
+	defer f.Close()
+	dec := consensus.NewWALDecoder(f)
+	for {
+		if _, err := dec.Decode(); err != nil {
+			return err != io.EOF
+		}
+	}
+}
